@@ -549,7 +549,10 @@ class CircuitTemplate(AbstractBaseTemplate):
             net.clear()
         self._ir = net._ir
 
-        return results.loc[cutoff:, :]
+        # the time axis is computed in floating point (0.19999999999999998 for the third sample of step 0.1): keep
+        # the row whose time equals the cutoff up to a fraction of the sampling step
+        tol = 1e-6 * (sampling_step_size if sampling_step_size else step_size)
+        return results.loc[results.index >= cutoff - tol, :]
 
     def get_run_func(self, func_name: str, step_size: float, inputs: Optional[dict] = None, backend: str = None,
                      vectorize: bool = True, verbose: bool = True, clear: bool = False, in_place: bool = True, **kwargs
